@@ -32,7 +32,30 @@ use std::time::Instant;
 #[global_allocator]
 static GLOBAL: alloc::Counting = alloc::Counting;
 
+/// per-case watchdog: (case index, start in ms since process start); u64::MAX = no case running
+pub static WD_CASE: std::sync::atomic::AtomicU64 = std::sync::atomic::AtomicU64::new(u64::MAX);
+pub static WD_START_MS: std::sync::atomic::AtomicU64 = std::sync::atomic::AtomicU64::new(0);
+
+fn start_watchdog(limit_s: u64) {
+    let t0 = Instant::now();
+    std::thread::spawn(move || loop {
+        std::thread::sleep(std::time::Duration::from_millis(500));
+        let case = WD_CASE.load(std::sync::atomic::Ordering::Relaxed);
+        if case == u64::MAX {
+            continue;
+        }
+        let started = WD_START_MS.load(std::sync::atomic::Ordering::Relaxed);
+        let now = t0.elapsed().as_millis() as u64;
+        if now.saturating_sub(started) > limit_s * 1000 {
+            eprintln!("E57MON-WATCHDOG case={} ran for more than {} s", case, limit_s);
+            std::process::exit(99);
+        }
+    });
+    WD_EPOCH.with(|e| *e.borrow_mut() = Some(t0));
+}
+
 thread_local! {
+    pub static WD_EPOCH: RefCell<Option<Instant>> = RefCell::new(None);
     pub static PANIC_INFO: RefCell<Option<String>> = RefCell::new(None);
     pub static IN_GUARD: std::cell::Cell<u32> = std::cell::Cell::new(0);
 }
@@ -263,7 +286,9 @@ pub fn run_cases(a: &Args, rep: &mut Reporter, mut f: impl FnMut(u64, u64, &mut 
     if let Some(idx) = a.only {
         let cs = rng::mix(&[a.seed, wl, idx]);
         rep.journal(idx, "only");
+        wd_begin(idx);
         f(idx, cs, rep);
+        wd_end();
         return (1, "only");
     }
     let mut done = 0u64;
@@ -281,7 +306,9 @@ pub fn run_cases(a: &Args, rep: &mut Reporter, mut f: impl FnMut(u64, u64, &mut 
         let cs = rng::mix(&[a.seed, wl, idx]);
         rep.journal(idx, "");
         let t = Instant::now();
+        wd_begin(idx);
         f(idx, cs, rep);
+        wd_end();
         let el = t.elapsed().as_secs_f64();
         if el > 2.0 {
             rep.emit(J::obj().set("t", J::s("slow")).set("case", J::i(idx as i128)).set("secs", J::Num(el)));
@@ -292,6 +319,15 @@ pub fn run_cases(a: &Args, rep: &mut Reporter, mut f: impl FnMut(u64, u64, &mut 
         k += 1;
     }
     (done, reason)
+}
+
+pub fn wd_begin(idx: u64) {
+    let ms = WD_EPOCH.with(|e| e.borrow().map(|t| t.elapsed().as_millis() as u64).unwrap_or(0));
+    WD_START_MS.store(ms, std::sync::atomic::Ordering::Relaxed);
+    WD_CASE.store(idx, std::sync::atomic::Ordering::Relaxed);
+}
+pub fn wd_end() {
+    WD_CASE.store(u64::MAX, std::sync::atomic::Ordering::Relaxed);
 }
 
 fn install_panic_hook() {
@@ -320,6 +356,9 @@ fn main() {
         std::process::exit(2);
     }
     let mut rep = Reporter::new(&a);
+    // generous per-case wall-clock watchdog (typical cases take milliseconds); its firing is never a verdict
+    // by itself: the driver re-runs the journaled case alone before calling it non-terminating
+    start_watchdog(a.get_u64("case-watchdog", 90));
     match a.workload.as_str() {
         "roundtrip" => w_roundtrip::run(&a, &mut rep),
         "simple" => w_simple::run(&a, &mut rep),
